@@ -179,6 +179,9 @@ MUTANTS = [
  ("c14-critical-isnan-form", "C14", "", "svg/bounding_box.go", "\t\tif !(0 <= t && t <= 1) {\n\t\t\tcontinue\n\t\t}\n", "\t\tif t < 0 || t > 1 || math.IsNaN(float64(t)) {\n\t\t\tcontinue\n\t\t}\n"),
  ("c18-radii-clamp-form", "C18", "", "svg/elements.go", "\trx, ry := e.radii(dims)\n\tif rx <= 0 || ry <= 0 { // a negative radius is invalid\n\t\treturn nil\n\t}\n", "\trx, ry := e.radii(dims)\n\tif rx < 0 {\n\t\trx = 0\n\t}\n\tif ry < 0 {\n\t\try = 0\n\t}\n\tif rx == 0 || ry == 0 {\n\t\treturn nil\n\t}\n"),
  ("c01-repeat-maxint-form", "C01", "", "css/counters/counters.go", "\t\tif repetitions < 0 || repetitions > maxSymbolRepeat {\n\t\t\treturn \"\", false\n\t\t}\n\t\tparts = append(parts, strings.Repeat(symbol(vs.NamedString), repetitions))", "\t\tif repetitions > maxSymbolRepeat {\n\t\t\treturn \"\", false\n\t\t}\n\t\tparts = append(parts, strings.Repeat(symbol(vs.NamedString), utils.MaxInt(0, repetitions)))"),
+ ("c08-var-comma-index-form", "C08", "", "html/tree/style.go", "\tvar (\n\t\tdefault_   []Token\n\t\thasDefault bool // the default value may be empty: var(--a,)\n\t)\n\tfor i, argument := range fn.Arguments {\n\t\tif pa.IsLiteral(argument, \",\") {\n\t\t\tdefault_, hasDefault = pa.RemoveWhitespace(fn.Arguments[i+1:]), true\n\t\t\tbreak\n\t\t}\n\t}\n", "\tvar default_ []Token\n\thasDefault := false\n\tfor i := 0; i < len(fn.Arguments) && !hasDefault; i++ {\n\t\tif pa.IsLiteral(fn.Arguments[i], \",\") {\n\t\t\tdefault_ = pa.RemoveWhitespace(fn.Arguments[i+1:])\n\t\t\thasDefault = true\n\t\t}\n\t}\n"),
+ ("c19-desc-local-first", "C19", "", "css/validation/descriptors.go", "\tout.Symbols = l\n\treturn nil\n", "\tif len(l) >= 0 {\n\t\tout.Symbols = l\n\t}\n\treturn nil\n"),
+ ("c13-extent-loop-form", "C13", "", "html/layout/tables.go", "\t\tcolumns := group.Children\n\t\tfor len(columns) > 1 && columns[len(columns)-1].Box().GridX >= len(table.ColumnPositions) {\n\t\t\tcolumns = columns[:len(columns)-1]\n\t\t}\n", "\t\tcolumns := group.Children\n\t\tfor {\n\t\t\tif len(columns) <= 1 || columns[len(columns)-1].Box().GridX < len(table.ColumnPositions) {\n\t\t\t\tbreak\n\t\t\t}\n\t\t\tcolumns = columns[:len(columns)-1]\n\t\t}\n"),
 ]
 
 def main():
